@@ -375,6 +375,14 @@ def main(tier, seed, only=None):
              assumptions=["herd feed use <= feed offered (C07)", "round-2 feed/biofuel within demand (C01 ceilings, run-time validator)", "increase_biofuels_then_feed replaced by the contract C18 proves for it (new >= old, new <= demand + 1e-8 if old <= demand); its precondition is an obligation at the real call site"], stubs=stubs,
              outside=["main()'s pandas loading", "the relation between rounds through CBC"]),
     ]
+    # the optimiser's side of the offer: whatever series the parameters hand over, the LP lets people eat no more meat than was slaughtered (running total with storage,
+    # month by month without) -- the meat clauses of the C01 audit, decided for all supplies
+    from harness import C01_allocations as C01
+    core = dict(SEAWEED=False, OUTDOOR_GROWING=True, STORED_FOOD=True, MEAT=True, METHANE_SCP=False, CELLULOSIC_SUGAR=False)
+    meat_cases = [dict(N=n, opt=o, store=s, flags=core, retail=6.08, clauses="meat") for n in ([5, 14] if not thorough else [5, 9, 14, 15]) for o in ("to_humans", "to_animals") for s in (True, False)]
+    groups.append(dict(name="optimiser_eats_no_more_meat_than_offered", fn="harness.C01_allocations:worker_audit", cases=meat_cases, replay=C01.replay_audit,
+                       functions=["Optimizer.add_meat_to_model", "add_meat_to_model_no_storage", "and the rest of the builder (as C01)"], bounds="N in {5,14} (thorough 5..15), both round types, storage between years on/off",
+                       symbolic="every supply (monthly slaughter, crops, stock, ...) and every LP variable", assumptions=["as C01"], stubs=["lpsym/standin.py"], outside=["horizons beyond the bound"]))
     vlib.run_groups(rep, MOD, groups, seed, only)
     return rep.finish()
 
